@@ -232,7 +232,8 @@ class Obj:
 
 
 _state = {'counter': 0, 'plan': {}}
-EXC = [ValueError, TypeError, KeyError, RuntimeError, ZeroDivisionError, AttributeError]
+EXC = [ValueError, TypeError, KeyError, RuntimeError, ZeroDivisionError, AttributeError, RecursionError, StopIteration, AssertionError,
+       NotImplementedError, OSError, MemoryError]
 CLASSES = {}
 
 
@@ -248,7 +249,7 @@ def _make_class(cid):
         f = _state['plan'].get(k)
         if f is not None:
             if f[0] == 'raises':
-                raise EXC[f[1]]('injected {fault} %(x)s at %d' % k)
+                raise EXC[f[1]]('injected {fault} %%(x)s at %d' % k)
             return 42
         return pp.pretty_call_alt(ctx, cls, args=tuple(value.kids))
     if with_param:
@@ -446,7 +447,7 @@ def failures_section(tier, seed):
         sz = size(t)
         cases.append((t, {}, set()))
         for k in range(sz):
-            for e in (range(len(EXC)) if tier == 'thorough' else [0, 1, rng.randrange(2, len(EXC))]):
+            for e in (range(len(EXC)) if tier == 'thorough' else [0, 1, EXC.index(RecursionError), rng.randrange(2, len(EXC))]):
                 cases.append((t, {k: ('raises', e)}, set()))
                 if k > 0:
                     cases.append((t, {k: ('raises', e)}, {k}))          # the faulty value under a trailing comment
